@@ -5,7 +5,7 @@ from_xml of elements rendered by my own writer) and evaluated by the library's o
 every result is compared with the reference evaluator (plain built-ins + operator module, literal coerced to the
 operand's type). A result that is not a `bool` (e.g. NotImplemented) is itself a witness. List conjunction and
 first-match lookup are observed through the library's real list evaluators (DiscreteLookup.evaluate,
-Binary/StringDataEncoding._calculate_size).
+a binary / string parameter whose length is a lookup list, observed through parse_value).
 """
 import itertools
 
@@ -304,8 +304,12 @@ def run(ctx):
 
 
 def lookups(ctx, comps, assigns, rng):
-    """first-match semantics through the encodings' real lookup-list code"""
+    """first-match semantics observed at the PUBLIC boundary: a binary / string parameter type whose length is a lookup
+    list is parsed from a packet holding 32 bits; the number of bits consumed (cursor) and the size of the value tell
+    which entry was used. (No private method of the library is called.)"""
+    from space_packet_parser import packets as P
     from space_packet_parser.xtce import encodings as E
+    from space_packet_parser.xtce import parameter_types as T
     n = 0
     for k in (1, 2, 3):
         for combo in itertools.product(range(len(comps)), repeat=k):
@@ -317,30 +321,33 @@ def lookups(ctx, comps, assigns, rng):
             for route in ("ctor", "xml"):
                 if route == "ctor":
                     benc = build.encoding(ir.BinEnc(lk))
-                    senc = build.encoding(ir.StrEnc("UTF-8", lk))
+                    senc = build.encoding(ir.StrEnc("US-ASCII", lk))
                 else:
                     o = render.Opts(explicit=None, rng=rng)
                     benc = E.BinaryDataEncoding.from_xml(xtce_element(render.render_fragment(render.enc_el(ir.BinEnc(lk), o))))
-                    senc = E.StringDataEncoding.from_xml(xtce_element(render.render_fragment(render.enc_el(ir.StrEnc("UTF-8", lk), o))))
+                    senc = E.StringDataEncoding.from_xml(xtce_element(render.render_fragment(render.enc_el(ir.StrEnc("US-ASCII", lk), o))))
+                btype, stype = T.BinaryParameterType("B", benc), T.StringParameterType("S", senc)
                 ctx.count(f"route.{route}")
                 for asg in assigns[::3]:
-                    pkt, env = packet_of(asg)
                     ctx.count("evaluations")
                     ctx.count("form.lookup")
-                    try:
-                        exp = ref.eval_lookup(lk, env)
-                    except ref.ModelError:
-                        exp = None
-                    for which, enc in (("binary", benc), ("string", senc)):
-                        s = monitored(enc._calculate_size, pkt)
-                        wit = {"lookup": repr(lk), "assignment": asg, "expected": exp, "got": repr(s.value), "exc": repr(s.exc)}
+                    for which, ptype in (("binary", btype), ("string", stype)):
+                        pkt, env = packet_of(asg)
+                        pkt.raw_data = P.RawPacketData(b"ABCD")
+                        try:
+                            exp = ref.eval_lookup(lk, env)
+                        except ref.ModelError:
+                            exp = None
+                        s = monitored(ptype.parse_value, pkt)
+                        used = pkt.raw_data.pos
+                        wit = {"lookup": repr(lk), "assignment": asg, "expected_bits": exp, "consumed_bits": used, "value": repr(s.value), "exc": repr(s.exc)}
                         if exp is None:
                             if s.exc is None:
-                                ctx.violation(f"lookup/{which}/no-match-returned-value", f"no entry matches but size {s.value!r} came back", wit)
+                                ctx.violation(f"lookup/{which}/no-match-returned-value", f"no entry matches but a value of {used} bits was decoded", wit)
                         elif s.exc is not None:
-                            ctx.violation(f"lookup/{which}/exception/{type(s.exc).__name__}", f"lookup raised {s.exc!r}, first matching entry gives {exp}", wit)
-                        elif s.value != exp:
-                            ctx.violation(f"lookup/{which}/wrong-entry", f"lookup gave {s.value!r}, first matching entry gives {exp}", wit)
+                            ctx.violation(f"lookup/{which}/exception/{type(s.exc).__name__}", f"parse raised {s.exc!r}, the first matching entry gives {exp} bits", wit)
+                        elif used != exp or len(s.value.raw_value if which == "string" else s.value) != exp // 8:
+                            ctx.violation(f"lookup/{which}/wrong-entry", f"{used} bits consumed, the first matching entry gives {exp}", wit)
                     ctx.sig("lookup", k, route, exp is None)
 
 
